@@ -29,10 +29,17 @@ where
     } else {
         Box::new(f)
     };
-    let reader = ReaderBuilder::new()
+    let mut csv_reader = ReaderBuilder::new()
         .has_headers(has_headers)
         .trim(csv::Trim::Fields)
-        .from_reader(r)
+        .from_reader(r);
+    if has_headers {
+        // the deserializing iterator reads the header row itself and discards the error of
+        // that read, after which a failed reader (such as the decoder of a gzip file cut
+        // short) looks like a file without records. read the header row here instead.
+        csv_reader.headers()?;
+    }
+    let reader = csv_reader
         .into_deserialize::<T>()
         .inspect(move |r| {
             if let Ok(t) = r {
